@@ -412,6 +412,33 @@ def closure_panic_stream(rng, pid, kinds=("vec", "array", "iter")):
     return cases
 
 
+def probe_panic_ledger_stream(rng, pid):
+    """the wrapped, owning iterator panics at its k-th `next()` in the middle of a chunk / buffered pull (elements of that pull
+    already taken out of it), at every k: with the ledger (every element it produced is moved out or destroyed once)"""
+    cases = []
+    i = 0
+    for L in (3, 5, 6):
+        for n in (2, 3, 4):
+            for k in range(0, L + 1):
+                for style in range(4):
+                    c = make_source(rng, "%s-pp%d" % (pid, i), "iter", L, hint=rng.choice(["exact", "inexact"]))
+                    c.script = c.script[:k] + ["P"] + c.script[k:]
+                    if style == 0:
+                        c.threads = [["bufnew %d" % n, "bufnext all", "bufnext all", "bufnext all"]]
+                    elif style == 1:
+                        c.threads = [["chunk %d all" % n, "chunk %d 1" % n, "next"]]
+                    elif style == 2:
+                        c.threads = [["bufnew %d" % n, "bufnext 1", "bufnext all"], ["next", "next"]]
+                        c.sched = rand_sched(rng, 2, 12)
+                    else:
+                        c.threads = [["foreach %d" % n], ["bufnew %d" % n, "bufnext all"]]
+                        c.sched = rand_sched(rng, 2, 12)
+                    c.owner = rng.choice(["drop", "intoseq all"])
+                    cases.append(c)
+                    i += 1
+    return cases
+
+
 def droppanic_stream(rng, tier, pid):
     """a destructor panics: the k-th destruction of an element performed by the machinery of a consumed vec / array
     (unconsumed chunk rest, elements discarded by `nth`, skip_to_end, Drop, the remainder of into_seq_iter)"""
@@ -595,7 +622,7 @@ def stream_for0(pid, tier, seed):
                             c.owner = owner
                             cases.append(c)
         cases += droppanic_stream(rng, tier, pid) + zst_stream(rng, pid) + closure_panic_stream(rng, pid) + next_then_nth_stream(rng, pid, kinds=("vec", "array", "iter"))
-        cases += spare_stream(rng, pid)
+        cases += spare_stream(rng, pid) + probe_panic_ledger_stream(rng, pid)
         return cases
     if pid == "C09":
         cases = defects + pulls_stream(rng, tier, pid, n_random=1000 if not big else 40000, prof=dict(skip=True))
@@ -653,6 +680,16 @@ def stream_for0(pid, tier, seed):
                             c.sched = rand_sched(rng, 2, 14)
                             cases.append(c)
                             i += 1
+        # zero-sized elements through every loop (chunk size 1 and > 1)
+        i = 0
+        for kind in ("vec", "array", "slice"):
+            for L in (1, 3, 5):
+                for pr in ([["foreach 2"]], [["enumforeach 3"]], [["fold 2"]], [["foreach 1"]], [["foreach 2"], ["enumforeach 1"]], [["fold 3"], ["foreach 2"]]):
+                    c = Case("C12-zst%d" % i, kind, vals=[0] * L, threads=[list(t) for t in pr], owner="drop", zst=True)
+                    if len(pr) > 1:
+                        c.sched = rand_sched(rng, len(pr), 10)
+                    cases.append(c)
+                    i += 1
         return cases
     if pid == "C13":
         cases = []
